@@ -130,7 +130,7 @@ def replay_case(args):
         return dict(mism=[("tvec", len(tv), K + 1)], obs=None, skipped=None, trace=None)
     if any(h["ill"] for h in hist):
         return dict(mism=[], obs=None, skipped="ill-posed", trace=None)
-    pv = [[fr(x) for x in h["pv"]] for h in hist]
+    pv = [[fr(x) for x in h.get("rw", h["pv"])] for h in hist]  # the environment's (data) values; function parameters are computed by the code
     Fw, ps = WD.build_parset(w, pv, tv)
     st0 = case.get("init", hist[0]["st"])
     WD.set_state(w, ps, [[fr(x) for x in rows] for rows in st0])
@@ -166,6 +166,11 @@ def replay_case(args):
         for l, o, e in zip(w["links"], ofl, h["fl"]):
             if len(o) != len(e) or not all(close(a, fr(b)) for a, b in zip(o, e)):
                 mism.append(("flow", k, l["src"], l["dst"], l["par"], o, [str(fr(b)) for b in e]))
+        for i, p in enumerate(w["pars"]):  # parameters computed by a function: the pipeline's value (dependencies first, clipped) at this index
+            if p.get("fn"):
+                o = float(m.get_pop(p["pop"]).get_par(p["base"]).vals[k])
+                if not close(o, fr(h["pv"][i])):
+                    mism.append(("par", k, p["name"], o, str(fr(h["pv"][i]))))
         for c, o, e in zip(w["comps"], ost, h["st"]):
             if len(o) != len(e):
                 mism.append(("rows", k, c["name"], len(o), len(e)))
